@@ -196,34 +196,9 @@ def run(ctx):
                     ctx.sample({"program": eg.to_text(c.prog)[:400], "goal": c.text, "solver": sname, "answer": sx.to_sexp(a), "oracle": c.oracle})
                 continue
             suspects.append((c, sname, a, verdict))
-    # the known class of the recursive solver is decided by the Coq predicate on the INPUT
-    cls = {}
-    cand = [(c, sname) for c, sname, a, verdict in suspects
-            if sname == "rec" and verdict == "incomplete" and logic.answer_kind(a).startswith("Ambig")]
-    if cand:
-        cexprs = []
-        for c, _ in cand:
-            st = c.prog.symtab()
-            vs, hs, body = eg.split_if_goal(c.goal)
-            cexprs.append((["D%d" % c.pidx], logic.bb("rec_ambig_class %d D%d %s %s" % (
-                FUEL, c.pidx, sx.to_coq(eg.rho_model(vs)), sx.to_coq(eg.hyps_model(hs, st, tuple(vs)))))))
-        ccodes, fl = logic.coq_codes(ctx.work, "class", defs, cexprs, imports=IMPORTS)
-        if fl:
-            raise core.CheckFailure("coq evaluation failed: %s" % (fl[0],))
-        for (c, sname), code in zip(cand, ccodes):
-            cls[(id(c), sname)] = (code == 1)
-    for c, sname, a, verdict in suspects:
-        if cls.get((id(c), sname)):
-            f = ctx.match_known(None, "rec-ambig-existential-bound")
-            if f:
-                ctx.known_finding(f, c.text)
-                stats["known:rec-ambig"] += 1
-                continue
-        ctx.violation({"kind": "oracle-mismatch:" + verdict, "solver": sname, "program": eg.to_text(c.prog), "goal": c.text,
-                       "answer": sx.to_sexp(a), "oracle": c.oracle,
-                       "relation": "closed goal: Unique <=> eval_if_decls = Some true (theorem sat_if_exact)"})
+    # history = fresh
+    hsus = []
     for c in cases:
-        # history = fresh
         for sname in ("slg", "rec"):
             fa = c.ans.get(sname)
             for occ, ha in enumerate(c.hist.get(sname, [])):
@@ -233,10 +208,61 @@ def run(ctx):
                 stats["history-compared"] += 1
                 ctx.count("history:%s" % c.kind, (c.key(), sname, occ), nontrivial=(occ > 0 or c.kind == "nohyp"))
                 if sx.to_sexp(ha) != sx.to_sexp(fa):
-                    ctx.violation({"kind": "history-differs-from-fresh" + (":leak" if c.kind == "nohyp" else ""), "solver": sname,
-                                   "program": eg.to_text(c.prog), "goal": c.text, "occurrence": occ,
-                                   "history_answer": sx.to_sexp(ha), "fresh_answer": sx.to_sexp(fa), "oracle": c.oracle,
-                                   "history": [x.text for x in by_prog[c.pidx]]})
+                    hsus.append((c, sname, occ, ha, fa))
+
+    # the known classes are decided by the Coq predicates on the INPUT
+    def class_codes(tag, items, mk):
+        if not items:
+            return []
+        cexprs = [([("D%d" % c.pidx)], logic.bb(mk(c))) for c in items]
+        ccodes, fl = logic.coq_codes(ctx.work, tag, defs, cexprs, imports=IMPORTS)
+        if fl:
+            raise core.CheckFailure("coq evaluation failed: %s" % (fl[0],))
+        return [x == 1 for x in ccodes]
+
+    def rec_class_expr(c):
+        st = c.prog.symtab()
+        vs, hs, body = eg.split_if_goal(c.goal)
+        return "rec_ambig_class %d D%d %s %s" % (FUEL, c.pidx, sx.to_coq(eg.rho_model(vs)), sx.to_coq(eg.hyps_model(hs, st, tuple(vs))))
+
+    def slg_class_expr(c):
+        st = c.prog.symtab()
+        vs, hs, body = eg.split_if_goal(c.goal)
+        return "slg_cocycle_class D%d %s" % (c.pidx, sx.to_coq(eg.goal_model(body, st, tuple(vs))))
+
+    rec_c = [c for c, sname, a, verdict in suspects
+             if sname == "rec" and verdict == "incomplete" and logic.answer_kind(a).startswith("Ambig")]
+    slg_c = [c for c, sname, a, verdict in suspects if sname == "slg" and verdict == "incomplete" and logic.answer_kind(a) == "NoSolution"]
+    slg_h = [c for c, sname, occ, ha, fa in hsus if sname == "slg" and c.oracle and logic.answer_kind(ha) == "NoSolution"]
+    rec_in = dict(zip([id(c) for c in rec_c], class_codes("clsrec", rec_c, rec_class_expr)))
+    slg_in = dict(zip([id(c) for c in slg_c + slg_h], class_codes("clsslg", slg_c + slg_h, slg_class_expr)))
+    for c, sname, a, verdict in suspects:
+        k = logic.answer_kind(a)
+        f = None
+        if sname == "rec" and verdict == "incomplete" and k.startswith("Ambig") and rec_in.get(id(c)):
+            f = ctx.match_known(None, "rec-ambig-existential-bound")
+            tag = "known:rec-ambig"
+        elif sname == "slg" and verdict == "incomplete" and k == "NoSolution" and slg_in.get(id(c)):
+            f = ctx.match_known(None, "F7-slg-coinductive-cycle-wf")
+            tag = "known:slg-cocycle"
+        if f:
+            ctx.known_finding(f, c.text)
+            stats[tag] += 1
+            continue
+        ctx.violation({"kind": "oracle-mismatch:" + verdict, "solver": sname, "program": eg.to_text(c.prog), "goal": c.text,
+                       "answer": sx.to_sexp(a), "oracle": c.oracle,
+                       "relation": "closed goal: Unique <=> eval_if_decls = Some true (theorem sat_if_exact)"})
+    for c, sname, occ, ha, fa in hsus:
+        if sname == "slg" and c.oracle and logic.answer_kind(ha) == "NoSolution" and slg_in.get(id(c)):
+            f = ctx.match_known(None, "F7-slg-coinductive-cycle-wf")
+            if f:
+                ctx.known_finding(f, c.text)
+                stats["known:slg-cocycle-history"] += 1
+                continue
+        ctx.violation({"kind": "history-differs-from-fresh" + (":leak" if c.kind == "nohyp" else ""), "solver": sname,
+                       "program": eg.to_text(c.prog), "goal": c.text, "occurrence": occ,
+                       "history_answer": sx.to_sexp(ha), "fresh_answer": sx.to_sexp(fa), "oracle": c.oracle,
+                       "history": [x.text for x in by_prog[c.pidx]]})
 
     # hand-made corpus with expected verdicts (guards the generator/oracle pipeline itself)
     ccases = [pg.case(t, gs, sv, "Fresh", [("Cpu", 5)]) for t, gs, _ in CORPUS for sv in (pg.SLG, pg.REC)]
@@ -259,7 +285,7 @@ def run(ctx):
                                      "oracle_true": sum(1 for c in cases if c.oracle is True), "oracle_false": sum(1 for c in cases if c.oracle is False),
                                      "outcomes": dict(stats)}
     ctx.cov["inconclusive"] = stats["oracle-inconclusive"] + sum(v for k, v in stats.items() if k.startswith("solver-died")) + stats["history-not-comparable"]
-    ctx.cov["known_class_share"] = round(stats["known:rec-ambig"] / max(1, sum(v for k, v in stats.items() if k[:4] in ("slg:", "rec:"))), 4)
+    ctx.cov["known_class_share"] = round((stats["known:rec-ambig"] + stats["known:slg-cocycle"]) / max(1, sum(v for k, v in stats.items() if k[:4] in ("slg:", "rec:"))), 4)
 
 
 def replay(ctx, obj):
